@@ -1,7 +1,7 @@
 """C12 - value conditions filter exactly: comparison table of the stock predicates and the one-guard rule."""
 import ast
 
-from ..astq import OPNAME, compare_normal, is_name, is_self_attr, kwarg, returns_of, calls_named, parse_fixture
+from ..astq import OPNAME, calls_named, compare_normal, conds, decision_list, ends_in_jump, split_tests, is_name, is_self_attr, kwarg, parse_fixture, returns_of, returns_with_conds
 from ..core import AnalysisError, norm, walk_local
 
 EXPECT = {"lt": ast.Lt, "gt": ast.Gt, "lte": ast.LtE, "gte": ast.GtE}
@@ -40,35 +40,42 @@ def judge_comparison(fn):
     return op is want, f"x {OPNAME[op]} {bound[0]} (name states x {OPNAME[want]} {bound[0]})"
 
 
-def range_rejections(call_fn):
-    """Normalised rejection conditions of Range.__call__: list of (field, guard_ok, op) + structure notes."""
+def range_decisions(call_fn):
+    """Range.__call__ read as an ordered decision list (astq.decision_list): the leading `False` entries are the
+    rejections [(field, guard_ok, op)], what follows is the acceptance tail [(literal texts, value node)]."""
     val = call_fn.args.args[1].arg if len(call_fn.args.args) == 2 else None
     if val is None:
         raise AnalysisError("tools.Range.__call__: expected (self, value)")
-    rej, others = [], []
-    for st in call_fn.body:
-        if isinstance(st, ast.If) and len(st.body) == 1 and isinstance(st.body[0], ast.Return) and not st.orelse:
-            rv = st.body[0].value
-            if isinstance(rv, ast.Constant) and rv.value is False:
-                parts = st.test.values if isinstance(st.test, ast.BoolOp) and isinstance(st.test.op, ast.And) else [st.test]
-                guard_field, cmp = None, None
-                for p in parts:
-                    g = compare_normal(p, lambda n: is_self_attr(n))
-                    c = compare_normal(p, lambda n: is_name(n, val))
-                    if c is not None and is_self_attr(c[1]):
-                        cmp = (c[0], c[1].attr)
-                    elif g is not None and isinstance(g[1], ast.Constant) and g[1].value is None and g[0] is ast.IsNot:
-                        guard_field = [x for x in (p.left, *p.comparators) if is_self_attr(x)][0].attr
-                    elif is_self_attr(p) or (isinstance(p, ast.UnaryOp) and is_self_attr(p.operand)):
-                        guard_field = f"<truthiness of {norm(p)}>"      # `if self.start and ...` skips the bound when it is 0
-                    else:
-                        raise AnalysisError(f"tools.Range.__call__: condition `{norm(p)}` not recognised")
-                if cmp is None:
-                    raise AnalysisError(f"tools.Range.__call__: rejection `{norm(st.test)}` has no comparison on the value")
-                rej.append((cmp[1], guard_field == cmp[1], cmp[0]))
-                continue
-        others.append(st)
-    return val, rej, others
+    entries, impure = decision_list(call_fn)
+    rej, tail, extra = [], [], []
+    leading = True
+    for tests, v in entries:
+        is_false = isinstance(v, ast.Constant) and v.value is False
+        if not (leading and is_false):
+            leading = False
+            tail.append((split_tests(tests), v))
+            continue
+        parts = []
+        for t, pos in tests:
+            if not pos:
+                raise AnalysisError(f"tools.Range.__call__: rejection under a negated test `{norm(t)}` not recognised")
+            parts += t.values if isinstance(t, ast.BoolOp) and isinstance(t.op, ast.And) else [t]
+        guard_field, cmp = None, None
+        for p in parts:
+            g = compare_normal(p, lambda n: is_self_attr(n))
+            c = compare_normal(p, lambda n: is_name(n, val))
+            if c is not None and is_self_attr(c[1]):
+                cmp = (c[0], c[1].attr)
+            elif g is not None and isinstance(g[1], ast.Constant) and g[1].value is None and g[0] is ast.IsNot:
+                guard_field = [x for x in ast.walk(p) if is_self_attr(x)][0].attr
+            elif is_self_attr(p) or (isinstance(p, ast.UnaryOp) and is_self_attr(p.operand)):
+                guard_field = f"<truthiness of {norm(p)}>"      # `if self.start and ...` skips the bound when it is 0
+            else:
+                raise AnalysisError(f"tools.Range.__call__: condition `{norm(p)}` not recognised")
+        if cmp is None:
+            raise AnalysisError(f"tools.Range.__call__: rejection `{[norm(t) for t, _ in tests]}` has no comparison on the value")
+        rej.append((cmp[1], guard_field == cmp[1], cmp[0]))
+    return val, rej, tail, impure
 
 
 def linear_form(e, val):
@@ -231,33 +238,30 @@ def check_guard_wrapping(repo, chk):
         chk.ob("R12.2", f"interpret.BaseAccumulator.__init__:wrap:{slot}", ok, where,
                f"user {slot} handler wrapped by the capture check: {msg}")
     # __check: returns wrapper iff fn and check and selector.hasval; wrapper calls check_captures and yields ABSENT otherwise
-    rets = returns_of(ck.node)
     inner = [n for n in ck.node.body if isinstance(n, ast.FunctionDef)]
     ok = False
     detail = "shape not recognised"
-    if len(rets) == 1 and isinstance(rets[0].value, ast.IfExp) and len(inner) == 1:
-        ife = rets[0].value
-        conds = {norm(v) for v in (ife.test.values if isinstance(ife.test, ast.BoolOp) and isinstance(ife.test.op, ast.And) else [ife.test])}
-        fnparam = ck.node.args.args[1].arg
-        ok = (is_name(ife.body, inner[0].name) and is_name(ife.orelse, fnparam)
-              and conds == {fnparam, ck.node.args.args[2].arg, "self.selector.hasval"})
-        detail = f"returns {norm(ife)}"
+    fnparam = ck.node.args.args[1].arg
+    rets = returns_with_conds(ck.node)
+    if len(inner) == 1 and rets and ends_in_jump(ck.node.body):
+        want = sorted([fnparam, ck.node.args.args[2].arg, "self.selector.hasval"])
+        wrapped = [cs for cs, v, _ in rets if is_name(v, inner[0].name)]
+        plain = [cs for cs, v, _ in rets if is_name(v, fnparam)]
+        ok = len(wrapped) == 1 and sorted(wrapped[0]) == want and len(wrapped) + len(plain) == len(rets) \
+            and all(len(cs) == 1 and cs[0].startswith("not (") and sorted(cs[0][5:-1].split(" and ")) == want for cs in plain)
+        detail = "returns " + "; ".join(f"{norm(v)} when {cs}" for cs, v, _ in rets)
     chk.ob("R12.2", "interpret.BaseAccumulator.__check:condition", ok, ck.where,
            "the wrapper is installed exactly when a handler is given, checking is on and the selector has values: " + detail)
     if inner:
         w = inner[0]
-        top = [s for s in w.body if isinstance(s, ast.If)]
-        ok = False
-        if len(w.body) == 1 and top:
-            t = top[0]
-            calls_check = isinstance(t.test, ast.Call) and norm(t.test.func) == "self.selector.check_captures" \
-                and len(t.test.args) == 1 and is_name(t.test.args[0], w.args.args[0].arg)
-            els = t.orelse
-            else_absent = len(els) == 1 and isinstance(els[0], ast.Return) and is_name(els[0].value, "ABSENT")
-            body_calls = all(isinstance(r.value, ast.Call) and is_name(r.value.func, ck.node.args.args[1].arg)
-                             for r in returns_of(ast.Module(body=t.body, type_ignores=[])) or [None] if r is not None) \
-                and bool([r for r in ast.walk(ast.Module(body=t.body, type_ignores=[])) if isinstance(r, ast.Return)])
-            ok = calls_check and else_absent and body_calls
+        gate = f"self.selector.check_captures({w.args.args[0].arg})"
+        wr = returns_with_conds(w)
+        absent = [cs for cs, v, _ in wr if is_name(v, "ABSENT")]
+        runs = [cs for cs, v, _ in wr if isinstance(v, ast.Call) and is_name(v.func, fnparam)]
+        # every way through the wrapper returns; ABSENT exactly when the gate fails; the handler only when it holds; nothing else
+        ok = ends_in_jump(w.body) and len(absent) >= 1 and len(runs) >= 1 and len(absent) + len(runs) == len(wr) \
+            and all(cs == [f"not {gate}"] for cs in absent) and all(gate in cs for cs in runs) \
+            and not any(isinstance(c, ast.Call) and is_name(c.func, fnparam) and gate not in conds(c, w) for c in ast.walk(w))
         chk.ob("R12.2", "interpret.BaseAccumulator.__check:wrapper", ok, ck.where,
                "wrapper runs the handler iff check_captures(results) holds and otherwise returns ABSENT (= no event, no override)")
     # fork passes wrapped callables and check=False
@@ -311,7 +315,7 @@ def run(repo, chk):
         chk.ob("R12.1", f"tools.{name}:operator", ok, fi.where, f"{name}: {desc}")
         chk.count("predicates")
     rc = repo.func("tools.Range.__call__")
-    val, rej, others = range_rejections(rc.node)
+    val, rej, tail, impure = range_decisions(rc.node)
     want = {("start", ast.Lt), ("end", ast.GtE)}
     got = {(f, op) for f, g, op in rej}
     for f, op in sorted(want, key=str):
@@ -323,36 +327,37 @@ def run(repo, chk):
             chk.ob("R12.1", f"tools.Range.__call__:extra-reject:{f}:{OPNAME[op]}", False, rc.where,
                    f"Range has a rejection the property does not state: value {OPNAME[op]} {f}")
         chk.ob("R12.1", f"tools.Range.__call__:guard:{f}", g, rc.where, f"the bound `{f}` is only compared when it is not None")
-    # what remains: optional modulo branch + return True
-    tail_ok, pure = True, True
-    for st in others:
-        if isinstance(st, ast.Return):
-            tail_ok = tail_ok and isinstance(st.value, ast.Constant) and st.value.value is True
-        elif isinstance(st, ast.If) and "modulo" in norm(st.test):
-            for n in ast.walk(st):
-                if isinstance(n, ast.Name) and n.id not in (val, "self", "abs"):
-                    pure = False
-                if isinstance(n, ast.Attribute) and is_name(n.value, "self") and n.attr not in ("start", "modulo"):
-                    pure = False
-                if isinstance(n, (ast.Assign, ast.AugAssign)):
-                    pure = False
-        else:
-            tail_ok = False
-    chk.ob("R12.1", "tools.Range.__call__:accept-otherwise", tail_ok and isinstance(rc.node.body[-1], ast.Return), rc.where,
-           "values that are not rejected are accepted (final `return True`, no other statement kinds)")
-    chk.ob("R12.1", "tools.Range.__call__:modulo-pure", pure, rc.where,
-           "the modulo test is a pure expression of value, start and modulo")
-    mod_ifs = [st for st in others if isinstance(st, ast.If) and "modulo" in norm(st.test)]
-    if len(mod_ifs) == 1 and len(mod_ifs[0].body) == 1 and isinstance(mod_ifs[0].body[0], ast.Return):
-        verdict, txt = judge_modulo(mod_ifs[0].body[0].value, val)
-        guard_ok = norm(mod_ifs[0].test) in ("self.modulo is not None",)
+    # what remains after the rejections: `<modulo test> if self.modulo is not None else True`, in either order of writing
+    def is_true(v):
+        return isinstance(v, ast.Constant) and v.value is True
+    modexpr = None
+    if len(tail) == 2 and tail[1][0] == []:
+        (l0, v0), (_, v1) = tail
+        if l0 == ["self.modulo is not None"] and is_true(v1):
+            modexpr = v0
+        elif l0 == ["self.modulo is None"] and is_true(v0):
+            modexpr = v1
+    tail_ok = modexpr is not None and not impure
+    chk.ob("R12.1", "tools.Range.__call__:accept-otherwise", tail_ok, rc.where,
+           "values that are not rejected are accepted when there is no modulus (no other statement kinds, no other result)"
+           + ("" if tail_ok else f" -- found: {[(l, norm(v)) for l, v in tail]}, other statements: {[norm(x)[:40] for x in impure]}"))
+    if modexpr is None:
+        if not any("modulo" in " ".join(l) for l, _ in tail):
+            raise AnalysisError("tools.Range.__call__: modulo branch not recognised")
+    else:
+        pure = True
+        for n in ast.walk(modexpr):
+            if isinstance(n, ast.Name) and n.id not in (val, "self", "abs"):
+                pure = False
+            if isinstance(n, ast.Attribute) and is_name(n.value, "self") and n.attr not in ("start", "modulo"):
+                pure = False
+        chk.ob("R12.1", "tools.Range.__call__:modulo-pure", pure, rc.where, "the modulo test is a pure expression of value, start and modulo")
+        verdict, txt = judge_modulo(modexpr, val)
         if verdict is None:
             raise AnalysisError(f"tools.Range.__call__: modulo test outside the normaliser: {txt}")
-        chk.ob("R12.1", "tools.Range.__call__:modulo-is-divisibility-of-value-minus-start", verdict and guard_ok, rc.where,
+        chk.ob("R12.1", "tools.Range.__call__:modulo-is-divisibility-of-value-minus-start", verdict, rc.where,
                f"with a modulus, a value in range is accepted iff value - start is divisible by it, for all integers: the test normalises to {txt} "
                "((a + k*m) mod m = a mod m; |a| is divisible by m iff a is)")
-    else:
-        raise AnalysisError("tools.Range.__call__: modulo branch not recognised")
     # argument routing
     ri = repo.func("tools.Range.__init__")
     for f in ("start", "end", "modulo"):
